@@ -58,6 +58,19 @@ def reseed(s):
         pass
 
 
+def mirror_failure(ctx, key, desc):
+    """after the oracle ran for a model/implementation disagreement `key`: if it exhibited a failing
+    input that is not a listed known finding, report it under the disagreement's own key as well
+    (the framework pairs disagreements and failures by key)"""
+    from harness.core import KnownMap
+    known = KnownMap([k for k in ctx.known if k.get("status", "open") == "open"])
+    for f in ctx.failures:
+        if f["key"].startswith(key + ":") and f["key"] not in known:
+            ctx.fail(key, desc, f["demanded"], f["got"], f"{f['what']} [{f['key']}]")
+            return True
+    return False
+
+
 def advance_private_rng(k):
     """the fresh sampler that loads a checkpoint is constructed at some other position of scipy's
     private (Fortran) generator than the original one was"""
@@ -314,6 +327,7 @@ def _run(ctx, cuqi, M, thorough, rng, ckpath):
             script_f = lambda: Script(stream)
             oracle_stateful(ctx, cuqi, key, "Toy", lambda cb, sc=None: Toy(dummy_targets[dim], scale=scale, script=sc, initial_point=np.array(x0, dtype=np.int64), callback=cb),
                             6, 3, 0.5, ckpath, seed, script_factory=script_f)
+            mirror_failure(ctx, key, desc)
     for (tf, nb), out in zip(ti_cases, outs[n_toy:]):
         ctx.case("tune-interval", {"tune_freq": tf, "Nb": nb}, nontrivial=False)
         want = max(int(tf * nb), 1)
@@ -413,6 +427,7 @@ def _run(ctx, cuqi, M, thorough, rng, ckpath):
             ctx.disagree(key, desc, out[:400], (got + (" " + err if err else ""))[:400], "record keeping of the sampler differs from the model")
             cfg = [c for c in configs if c["name"] == name][0]
             oracle_stateful(ctx, cuqi, key, cfg["cls"], cfg["mk"], 6, 3, 0.5, ckpath, seed)
+            mirror_failure(ctx, key, desc)
 
     # ========================================================================= stateless interface
     import cuqi.sampler as L
